@@ -204,6 +204,15 @@ def join_byte_intervals(
                     if aux_data and bi in aux_data:
                         table[bi] = aux_data[bi]
             if len(table) > 0:
+                # The destination needs an entry that is backed by the aux
+                # data as well, otherwise the items moved to it would end up
+                # in a dict that is not part of the aux data table.
+                destination_module = intervals[0].module
+                if intervals[0] not in table and destination_module:
+                    aux_data = table_def.get(destination_module)
+                    if aux_data is not None:
+                        aux_data[intervals[0]] = {}
+                        table[intervals[0]] = aux_data[intervals[0]]
                 tables.append(table)  # type: ignore # per above this is hacky
 
     destination = intervals[0]
